@@ -173,10 +173,19 @@ class Run:
                 txn.commit()
             s.emit("ended", how=how)
 
-    def reader_thread(self, tid, n):
+    def reader_thread(self, tid, n, mode):
         s, z = self.s, self.zone
+        first = self.vid0 if mode == "byinit" else 0  # "byinit": every transaction asks for the initial version
         for _ in range(n):
-            txn = z.reader()
+            try:
+                # a "byid" reader re-opens the version its first transaction saw (it may have been
+                # pruned meanwhile: KeyError, which the specification allows exactly then)
+                txn = z.reader(id=first) if (mode in ("byid", "byinit") and first) else z.reader()
+            except KeyError:
+                s.emit("rfail", vid=first)
+                continue
+            if not first:
+                first = int(txn.version.id)
             for op in ("ropen", "rread"):
                 s.yield_point(op)
                 s.observe(op, None, vid=int(txn.version.id), c=tags_in_txn(txn, NA), cb=tags_in_txn(txn, NB),
@@ -193,7 +202,7 @@ class Run:
     def go(self):
         job = self.job
         z = self.zone
-        vid0 = int(z._versions[-1].id)
+        vid0 = self.vid0 = int(z._versions[-1].id)
         old_thr, old_txn = dns.versioned.threading, dns.versioned.Transaction
         _CUR[0] = self.s
         try:
@@ -205,7 +214,7 @@ class Run:
                     self.s.spawn(i, self.writer_thread, i, hows)
             for i, n in enumerate(job["rplan"], start=5):
                 if n:
-                    self.s.spawn(i, self.reader_thread, i, n)
+                    self.s.spawn(i, self.reader_thread, i, n, (list(job.get("rmode", [])) + ["latest", "latest"])[i - 5])
             if job.get("pplan"):
                 self.s.spawn(7, self.policy_thread, 7, list(job["pplan"]))
             res = self.s.run()
@@ -226,12 +235,13 @@ def make_policy(p):
     if p[0] == "pre":
         return sched.PreemptPolicy(p[1], {int(a): b for a, b in p[2]})
     if p[0] == "rand":
-        return sched.RandomPolicy(p[1], p[2])
+        return sched.RandomPolicy(p[1], p[2], p[3] if len(p) > 3 else 0.05)
     raise ValueError(p)
 
 
 def run_one(job):
-    """job: tid, plan [[how,...] per writer 1..], rplan [n per reader 5..], pplan [max_versions
+    """job: tid, plan [[how,...] per writer 1..], rplan [n per reader 5..], rmode ["latest"|"byid" per
+    reader], pplan [max_versions
     values set by the policy thread 7; 0 = None], mode ops|lines, policy, zclass.  Returns (trace, sched.Result)."""
     try:
         r = Run(job)
@@ -244,7 +254,8 @@ def run_one(job):
         meta = {"steps": 0, "lines": 0, "subs": 0}
     plan = [list(x) for x in job["plan"]] + [[] for _ in range(4 - len(job["plan"]))]
     rplan = list(job["rplan"]) + [0] * (2 - len(job["rplan"]))
-    tr = {"tid": job["tid"], "plan": plan, "rplan": rplan, "pplan": list(job.get("pplan", [])), "vid0": vid0, "mode": job["mode"],
+    rmode = (list(job.get("rmode", [])) + ["latest", "latest"])[:2]
+    tr = {"tid": job["tid"], "plan": plan, "rplan": rplan, "rmode": rmode, "pplan": list(job.get("pplan", [])), "vid0": vid0, "mode": job["mode"],
           "zclass": job.get("zclass", "versioned"), "meta": meta, "ev": ev}
     return tr, res
 
@@ -252,13 +263,21 @@ def run_one(job):
 def run_job(job):
     tr, res = run_one(job)
     if res is not None:
-        tr["sched"] = "".join(str(t) for t in res.ran)
+        set_sched(tr, res)
     return tr
+
+
+def set_sched(tr, res):
+    """ran: the exact schedule (negative id = that thread's timed wait timed out);
+    sched: the same, printable."""
+    tr["ran"] = [int(t) for t in res.ran]
+    tr["sched"] = "".join(str(t) if t > 0 else "~%d" % -t for t in res.ran)
+    tr["meta"]["timeouts"] = res.timeouts
 
 
 def ev_key(tr):
     """Two runs with the same key are indistinguishable to the trace specification."""
-    return repr((tr["plan"], tr["rplan"], tr["pplan"], tr["vid0"], tr["ev"]))
+    return repr((tr["plan"], tr["rplan"], tr["rmode"], tr["pplan"], tr["vid0"], tr["ev"]))
 
 
 def run_bounded(job):
@@ -266,9 +285,12 @@ def run_bounded(job):
 
     job: base (a run_one job with policy ["pre", priority, devs]), k (how many further
     deviations to place after the last one in devs), kinds (None or list of step kinds at
-    which deviations are placed).  Returns {"traces": distinct traces, "runs": n}."""
+    which deviations are placed), levels (optional: one {"kinds": [...], "funcs": [...]}
+    filter per remaining depth, outermost first - a targeted sub-family of the k-bounded
+    schedules).  Returns {"traces": distinct traces, "runs": n}."""
     base = dict(job["base"])
     kinds = set(job["kinds"]) if job.get("kinds") else None
+    levels = job.get("levels")
     seen = {}
     runs = 0
 
@@ -280,14 +302,16 @@ def run_bounded(job):
         tr, res = run_one(j)
         runs += 1
         if res is not None:
-            tr["sched"] = "".join(str(t) for t in res.ran)
+            set_sched(tr, res)
         key = ev_key(tr)
         if key not in seen:
             seen[key] = tr
         if k <= 0 or res is None:
             return
         last = max([a for a, _ in devs], default=-1)
-        for (i, t) in sched.deviations_of(res, after=last, kinds=kinds):
+        lv = levels[len(levels) - k] if levels else {}
+        for (i, t) in sched.deviations_of(res, after=last, kinds=set(lv["kinds"]) if lv.get("kinds") else kinds,
+                                          funcs=set(lv["funcs"]) if lv.get("funcs") else None):
             rec(devs + [[i, t]], k - 1, "%s_%d.%d" % (name, i, t))
 
     rec([list(d) for d in base["policy"][2]], job["k"], job["tid"])
